@@ -184,6 +184,7 @@ fn operators_random(tape: &[u32], st: &mut Stats) -> CaseResult {
 // ---------------------------------------------------------------------------------------------
 // precedence over the value table: typed trees, operands on which flagged operators are AC
 
+const VEC_LITS: [&str; 5] = ["[1,0,0]", "[0,1,0]", "[2,1,3]", "[0,0,1]", "[1, 2, 2]"];
 const INT_LITS: [&str; 8] = ["0", "1", "2", "3", "4", "5", "6", "7"];
 
 struct Typed<'a> {
@@ -216,6 +217,16 @@ impl<'a> Typed<'a> {
         } else {
             tr
         }
+    }
+    /// 3-vectors with small integer components (variables u, v and literals): cross, + and - are
+    /// exact on them, and `cross` is neither commutative nor associative
+    fn vec3(&self, t: &mut Tape, n: usize) -> Tree {
+        if n <= 1 {
+            return if t.chance(40) { Tree::Var(3 + t.choose(2)) } else { Tree::Num(t.pick(&VEC_LITS).to_string()) };
+        }
+        let l = if t.chance(60) { n - 1 } else { 1 + t.choose(n - 1) };
+        let op = *t.pick(&["cross", "cross", "cross", "+", "-"]);
+        Tree::Bin(self.ix(op), Box::new(self.vec3(t, l)), Box::new(self.vec3(t, n - l)))
     }
     fn boolean(&self, t: &mut Tape, n: usize) -> Tree {
         if n <= 1 {
@@ -276,20 +287,25 @@ fn precedence_trees(tape: &[u32], st: &mut Stats) -> CaseResult {
         let leaves: Vec<Tree> = (0..n).map(|_| ty.int(&mut t, 1)).collect();
         let ops: Vec<usize> = (0..n - 1).map(|_| ty.ix(*t.pick(&["+", "-", "-", "|", "&", "XOR", "min", "max", "%", "-"]))).collect();
         chain_tree(&ops, leaves, &table)
+    } else if t.chance(12) {
+        let n = 2 + t.choose(4);
+        ty.vec3(&mut t, n)
     } else if t.chance(25) {
         ty.boolean(&mut t, n.max(2))
     } else {
         ty.int(&mut t, n)
     };
+    st.class_if(matches!(&tree, Tree::Bin(o, ..) if ["cross"].contains(&table[*o].name)), "chain of vector operators ending in cross");
     st.class_if(long, "more than 20 binary operators on one nesting level");
-    let pool = VarPool { names: vec!["x".into(), "y".into(), "z".into()], bare_ok: vec![true; 3] };
+    let pool = VarPool { names: vec!["x".into(), "y".into(), "z".into(), "u".into(), "v".into()], bare_ok: vec![true; 5] };
     let rcfg = RenderCfg { call_pct: 15, redundant_paren_pct: 6, ..RenderCfg::default() };
     let (text, _toks, _info) = render(&tree, &table, &pool, &rcfg, &mut t);
     let facts = tree_facts(&tree, &table);
     st.class_if(facts.equal_prio_adjacent, "equal-priority operators adjacent");
     st.class_if(facts.equal_prio_mixed, "commutative and other operator share a priority, adjacent");
     st.class_if(facts.adjacent_literals, "adjacent literal operands");
-    let vals_all: [V; 3] = [Val::Int(3), Val::Int(-2), Val::Int(5)];
+    let arr3 = |a: [f64; 3]| -> V { Val::Array(a.into_iter().collect()) };
+    let vals_all: [V; 5] = [Val::Int(3), Val::Int(-2), Val::Int(5), arr3([1.0, 2.0, 3.0]), arr3([-2.0, 0.0, 1.0])];
     let mut used = std::collections::BTreeSet::new();
     vars_used(&tree, &mut used);
     let vals: Vec<V> = used.iter().map(|i| vals_all[*i].clone()).collect();
@@ -347,7 +363,7 @@ pub fn def() -> PropDef {
             },
             SubCheck {
                 name: "precedence_trees",
-                rule: "tape -> typed tree (int: + - * | & XOR min max % << >> unary - abs, `a if c else b`; bool: comparisons, && || == !=) over the value table x rendering, via parse_val, parse_wo_compile and DeepEx<Val>::parse; 12% of the cases are 21-45 operands joined on one nesting level by + - | & XOR min max %; reference = the tree folded with the table's own functions; non-trivial = a commutative and a different operator of equal priority adjacent (10 - 2 + 3, x >> 1 | 2, a == b != c)",
+                rule: "tape -> typed tree (int: + - * | & XOR min max % << >> unary - abs, `a if c else b`; bool: comparisons, && || == !=) over the value table x rendering, via parse_val, parse_wo_compile and DeepEx<Val>::parse; 12% of the cases are 21-45 operands joined on one nesting level by + - | & XOR min max %, 10% are chains of 2-5 integer-valued 3-vectors (variables and literals) joined by cross + -; reference = the tree folded with the table's own functions; non-trivial = a commutative and a different operator of equal priority adjacent (10 - 2 + 3, x >> 1 | 2, a == b != c)",
                 kind: Kind::Tape { len: 300, quick: 40_000, thorough: 2_000_000, f: precedence_trees },
             },
         ],
